@@ -436,8 +436,8 @@ func init() {
 		Assume: []string{"math/big rational arithmetic is exact"},
 		Classes: []fw.Class{
 			{Name: "exhaustive-4x4", Quick: 65536, Thorough: 65536, Run: c12Exhaustive, Exhaustive: "every ordered pair of non-degenerate segments with endpoints on a 4x4 grid (57,600 pairs) x 8 presentations"},
-			{Name: "grid", Quick: 40000, Thorough: 3000000, Run: c12Grid},
-			{Name: "float", Quick: 30000, Thorough: 2000000, Run: c12Float},
+			{Name: "grid", Quick: 100000, Thorough: 3000000, Run: c12Grid},
+			{Name: "float", Quick: 80000, Thorough: 2000000, Run: c12Float},
 			{Name: "float-t-junction", Quick: 12000, Thorough: 600000, Run: c12FloatT},
 		},
 		Require: []string{"class_proper-crossing", "class_t-junction", "class_endpoint-endpoint", "class_collinear-overlap", "class_collinear-touching", "class_collinear-disjoint", "class_parallel", "class_disjoint", "crossings_located", "float_pairs"},
